@@ -81,3 +81,17 @@ Fixpoint res_fold_brk {St A : Type} (f : St -> A -> result (bool * St)) (l : lis
   | [] => Ok s
   | a :: r => dor x <- f s a; if fst x then res_fold_brk f r (snd x) else Ok (snd x)
   end.
+
+(* ---- additions for scoring/gaussian_dbal.py ---- *)
+(* d[k] (read) on a dict with integer keys: KeyError (Err 96) when the key is absent *)
+Fixpoint dict_get {V : Type} (d : list (Z * V)) (k : Z) : result V :=
+  match d with
+  | [] => Err 96
+  | (k', v) :: r => if k' =? k then Ok v else dict_get r k
+  end.
+(* dict(pairs): the pairs are inserted from the left (a repeated key keeps its first place and gets the last value) *)
+Definition dict_of_pairs {V : Type} (l : list (Z * V)) : list (Z * V) :=
+  fold_left (fun d kv => dict_set d (fst kv) (snd kv)) l [].
+(* d.update(other) with other a dict: other's items are inserted into d in other's order *)
+Definition dict_update {V : Type} (d other : list (Z * V)) : list (Z * V) :=
+  fold_left (fun d kv => dict_set d (fst kv) (snd kv)) other d.
